@@ -4,8 +4,9 @@ from harness.common import bud
 from harness.props import c01, c05
 
 PROP = "C16"
-MODULES = ["CassisModel.Properties.C16Chain", "CassisModel.Properties.C01", "CassisModel.Properties.C02", "CassisModel.Properties.C04", "CassisModel.Properties.C13", "CassisModel.Properties.C16ChainColl", "CassisModel.Properties.C16ChainEmbedded"]
+MODULES = ["CassisModel.Properties.C16Chain", "CassisModel.Properties.C01", "CassisModel.Properties.C02", "CassisModel.Properties.C04", "CassisModel.Properties.C13", "CassisModel.Properties.C16ChainColl", "CassisModel.Properties.C16ChainEmbedded", "CassisModel.Properties.C16ChainEmbedded2"]
 THEOREMS = [
+    "Cassis.chain_json_xmi_minimal_coll",
     "Cassis.chain_xmi_json_full_coll",
     "Cassis.chain_xmi_json_minimal_coll",
     "Cassis.chain_json_xmi_full_coll",
@@ -179,7 +180,7 @@ def run(ctx, out, budget):
             out.nontriv((k, ops[-1]["kind"]))
         if k < 2:
             out.sample({"chain": ops[-1], "n_fs": len(d1.get("ok", {}).get("fs", {}))})
-    out.partial = ["JSON -> XMI chain with the MINIMAL embedded type system, type systems that are not FlagCoherent, and CASes outside the common fragment: checked on implementation and model per run, no theorem"]
+    out.partial = ["type systems that are not FlagCoherent (a redefinition differing only in multipleReferencesAllowed) and CASes outside the common fragment: checked on implementation and model per run, no theorem"]
 
 
 def replay(ctx, payload):
